@@ -1241,7 +1241,7 @@ def corr(ctx, scale=1, oracle_only=False, only=None):
             np.seterr(all='ignore')
             # ---------------- diffusion
             if only in (None, 'diffusion'):
-                ncases = ctx.n(30, 150) * scale
+                ncases = ctx.n(30, 400) * scale
                 cfgs = [gen_diff_cfg(rng) for _ in range(ncases)]
                 for i, rec in enumerate(['off', 'on', 'removed', 'switched-off', 'switched-on']):      # every option in every run
                     cfgs[i]['rec'] = rec
@@ -1257,14 +1257,14 @@ def corr(ctx, scale=1, oracle_only=False, only=None):
                             run_diff_case(res, ctx, tmp, cfg, lines, pending, resume=False)
             # ---------------- precipitation
             if only in (None, 'precipitation'):
-                cfgs = [gen_precip_cfg(rng) for _ in range(ctx.n(3, 8) * scale)]
+                cfgs = [gen_precip_cfg(rng) for _ in range(ctx.n(3, 20) * scale)]
                 cfgs[0]['record'] = True; cfgs[0]['adaptive'] = True
                 cfgs[1]['record'] = False
                 if ctx.thorough:
-                    cfgs += [gen_precip_cfg(rng, 'NiCrAl') for _ in range(2)] + [gen_precip_cfg(rng, 'AlMgSi')]
-                    cfgs[-3]['record'] = True
+                    cfgs += [gen_precip_cfg(rng, 'NiCrAl') for _ in range(4)] + [gen_precip_cfg(rng, 'AlMgSi') for _ in range(2)]
+                    cfgs[-6]['record'] = True; cfgs[-1]['record'] = True; cfgs[-2]['record'] = False
                 for i, cfg in enumerate(cfgs):
-                    run_precip_case(res, ctx, tmp, cfg, lines, pending, resume=ctx.thorough and i < 3)
+                    run_precip_case(res, ctx, tmp, cfg, lines, pending, resume=ctx.thorough and (i < 4 or cfg['system'] != 'AlZr'))
             # ---------------- model comparison for the save/load cases
             if ctx.driver_ok and not oracle_only and lines:
                 compare_with_model(res, vlib.run_driver(PROP, lines), pending)
@@ -1273,12 +1273,12 @@ def corr(ctx, scale=1, oracle_only=False, only=None):
             if only in (None, 'surrogate'):
                 from kawin.thermo import BinarySurrogate, MulticomponentSurrogate
                 thb = kwnruns.therm_binary(); tht = kwnruns.therm_ternary()
-                for _ in range(ctx.n(2, 5) * scale):
+                for _ in range(ctx.n(2, 10) * scale):
                     check_untrained(res, 'binary', BinarySurrogate, thb, rng)
                     check_untrained(res, 'multi', MulticomponentSurrogate, tht, rng)
-                for _ in range(ctx.n(3, 10) * scale):
+                for _ in range(ctx.n(3, 30) * scale):
                     check_trained_binary(res, thb, rng, tmp, jlines, jpending)
-                for _ in range(ctx.n(2, 5) * scale):
+                for _ in range(ctx.n(2, 12) * scale):
                     check_trained_multi(res, tht, rng, tmp, jlines, jpending)
                 json_model_compare(res, ctx if not oracle_only else _NoDriver(ctx), rng, jlines, jpending, ctx.n(150, 1500))
     finally:
